@@ -1,5 +1,6 @@
 """C15 -- printer dispatch follows the class hierarchy for every registration history."""
 from engine import effects
+from . import shared_state as SS
 from engine.loader import AnalysisError
 
 META = {
@@ -47,14 +48,15 @@ def run(repo, rep):
     n = 0
     seen_writes = {k: 0 for k in WRITERS}
     for s in all_sites:
-        if s.kind != 'write' or s.obj.name not in WRITERS or s.obj.module is not m:
+        cname = SS._canonical(repo, s.obj.name)
+        if s.kind != 'write' or cname not in WRITERS or s.obj.module is not m:
             continue
         n += 1
-        seen_writes[s.obj.name] += 1
+        seen_writes[cname] += 1
         who = s.fn.qualname if (s.fn and s.fn.module is m) else (s.fn.key if s.fn else '<module>')
-        rep.check(who in WRITERS[s.obj.name], 'C15.a', '%s:writes:%s:%s' % (who, s.obj.name, s.detail), s.where,
+        rep.check(who in WRITERS[cname], 'C15.a', '%s:writes:%s:%s' % (who, s.obj.name, s.detail), s.where,
                   'store written only by its registered writers',
-                  '%s %s %s; only %s may write that store' % (who, s.detail, s.obj.name, sorted(WRITERS[s.obj.name])),
+                  '%s %s %s; only %s may write that store' % (who, s.detail, s.obj.name, sorted(WRITERS[cname])),
                   nontrivial=True)
     for k, c in seen_writes.items():
         n += 1
